@@ -38,7 +38,8 @@ def consulted (s : Sys F) (ev : Ev) (i : Nat) : Bool :=
   reset by `mark_for_recovery`;
 * `flush`: the periodic send failed (a send failure was pending for the conn id);
 * `uplink`: a REG3 (`clear_pre_registration_state`) or REG_ERR (`mark_for_recovery`) arrived on this link;
-* `hk`: housekeeping started a reconnect of this (timed-out) link (`reset_for_reconnect`). -/
+* `hk`: housekeeping started a reconnect of this (timed-out) link (`reset_for_reconnect`, or
+  `mark_for_recovery` when the socket re-creation failed). -/
 def LossCause (s : Sys F) (ev : Ev) (i : Nat) (l l' : FLink F) : Prop :=
   match ev with
   | .client _ _ => FailedSendReset s.failNext l l'
@@ -110,6 +111,9 @@ theorem step_link (s : Sys F) (ev : Ev) (hnd : (ids s.links).Nodup) :
     refine ⟨rfl, fun i l hl => ⟨l, hl, LinkFx.refl _ l, ?_, fun _ => Or.inl rfl⟩⟩
     unfold ProbeFx; rw [if_neg (by simp [consulted])]; exact Or.inl rfl
   | failNext cid =>
+    refine ⟨rfl, fun i l hl => ⟨l, hl, LinkFx.refl _ l, ?_, fun _ => Or.inl rfl⟩⟩
+    unfold ProbeFx; rw [if_neg (by simp [consulted])]; exact Or.inl rfl
+  | failBind cid =>
     refine ⟨rfl, fun i l hl => ⟨l, hl, LinkFx.refl _ l, ?_, fun _ => Or.inl rfl⟩⟩
     unfold ProbeFx; rw [if_neg (by simp [consulted])]; exact Or.inl rfl
 
